@@ -7,7 +7,7 @@ import (
 
 // C05: a replacement is the concatenation of its `with` items for that match.
 
-const c05Defs = "set f to transform return match + 'x' end " +
+const c05Defs = "set e to pattern (any = x) " + "set f to transform return match + 'x' end " +
 	"set g to transform return matchNumber * 2 end " +
 	"set h to transform if x == 'a' then return 'A' else return x + matchLength end end "
 
@@ -143,4 +143,21 @@ func VerifC05(job int, T int, twin int) {
 			vFail("Replacement is not the concatenation of the with items evaluated on this match")
 		}
 	}
+}
+
+// captures reached through definitions (named pattern, inline subroutine) and through counted loops: the
+// with-list names the capture directly, through a transform, twice, next to an undefined name
+var c05DefBodies = []string{
+	"e", "e e", "at least 1 e", "exactly 2 e", "between 1 and 2 e fewest", "maybe e any", "(at least 1 e) = y", "{any = x} = s", "{any = x} = s s",
+	"at least 1 (any = x)", "exactly 2 (any = x)", "e or 'b'",
+}
+var c05DefWiths = []string{"'<' x '>'", "x x", "h", "'a' g x", "nope x 'k'"}
+
+func VerifC05DefsCount() int { return len(c05DefBodies) * len(c05DefWiths) }
+
+func VerifC05Defs(job int, T int) {
+	sb, sw := c05Bodies, c05Withs
+	c05Bodies, c05Withs = c05DefBodies, c05DefWiths
+	defer func() { c05Bodies, c05Withs = sb, sw }()
+	VerifC05(job, T, 0)
 }
